@@ -1274,17 +1274,24 @@ def suite_findings(chk, env, model):
         recs = [r_ for r_ in recs if r_["spec"] and len(r_["spec"][1]) == 1] or None
         if not recs:
             recs = [{"key": "k%d" % i, "val": "v %1$s", "spec": ("aprintf", ["%1$s"]), "comment": None, "attrs": []}]
+        kind = i % 6
+        if kind == 1 and len(recs) < 2:
+            recs = recs + [{"key": "second%d" % i, "val": "w %1$s", "spec": ("aprintf", ["%1$s"]),
+                            "comment": None, "attrs": []}]
         recs = recs + [{"key": "plain%d" % i, "val": words(rng), "spec": None, "comment": None, "attrs": []}]
         ref_text = render(rng, "android", [("rec", r_, "same") for r_ in recs])
-        kind = i % 5
         items = [("rec", dict(r_), "same") for r_ in recs]
-        if kind == 0 or (kind == 1 and len(recs) < 3):       # one bad entity -> file written twice
+        if kind == 0:                                         # one bad entity -> file written twice
             items[0] = ("rec", dict(recs[0], val="x %1$d"), "bad")
             go("android", ref_text, render(rng, "android", items), "D4-one-entity", SIG_D4)
         elif kind == 1:                                       # two bad entities -> TypeError
             items[0] = ("rec", dict(recs[0], val="x %1$d"), "bad")
             items[1] = ("rec", dict(recs[1], val="y %1$d"), "bad")
             go("android", ref_text, render(rng, "android", items), "D9-two-entities", SIG_D9)
+        elif kind == 5:                                       # junk element and a bad entity -> TypeError
+            items[0] = ("rec", dict(recs[0], val="x %1$d"), "bad")
+            items.insert(rng.randint(0, len(items)), ("junk", junk_text(rng, "android")))
+            go("android", ref_text, render(rng, "android", items), "D9-junk-and-entity", SIG_D9)
         elif kind == 2:                                       # one entity, two errors: one skip
             items[-1] = ("rec", dict(recs[-1], val="it's Bob's"), "bad")
             go("android", ref_text, render(rng, "android", items), "D4-one-entity-two-errors", SIG_D4)
